@@ -139,6 +139,15 @@ class Check(common.Check):
                 else:
                     rates.append([rng.choice(LAGS) for _ in range(rng.randint(1, 4))])
         lv = {'params': params, 'rates': rates, 'prepend': [rng.choice(VALS) for _ in range(nprep)], 'wraps': []}
+        if nprep == 1 and rng.random() < 0.6:
+            # `prepend` given as ONE value that is not a list: a bare scalar, or a tuple (one argument)
+            if rng.random() < 0.5:
+                lv['pform'] = 'scalar'
+                if not lv['prepend'][0]:      # `prepend or []`: a falsy bare value means "no prepend" (noted)
+                    lv['prepend'] = [rng.choice([v for v in VALS if v])]
+            else:
+                lv['pform'] = 'tuple'
+                lv['prepend'] = [[rng.choice(VALS) for _ in range(rng.randint(1, 3))]]
         if depth < 2:
             for _ in range(rng.choice([0, 0, 0, 1, 1, 2])):
                 lv['wraps'].append(self.g_level(rng, names, depth + 1, nmax))
@@ -417,7 +426,7 @@ class Check(common.Check):
                             f"SynthDef(name, f, …) ({io.get('decorator_same')})", 'signature': 'decorator'}
         # 4b. prepended values reach the body unchanged
         for li, lv in enumerate(levels):
-            want = [str(int(v * I.SCALE)) for v in (lv.get('prepend') or [])]
+            want = [I.pval(v) for v in (lv.get('prepend') or [])]
             if io['prepended'][li] != want:
                 return {'what': f"level {li}: body received {io['prepended'][li]} for the prepended values {want}",
                         'signature': 'prepend'}
@@ -475,6 +484,9 @@ class Check(common.Check):
             inc(f'levels:{min(len(levels), 4)}')
             if any(lv.get('prepend') for lv in levels):
                 inc('prepend')
+            for lv in levels:
+                if lv.get('pform'):
+                    inc('prepend_as_' + lv['pform'])
             if any(p.get('annraw') for lv in levels for p in lv['params']):
                 inc('prepended_param_with_non_rate_annotation')
             if c.get('specs') is not None:
